@@ -379,6 +379,8 @@ def ref_transform(g, root, callbacks, log):
         for i, cb in enumerate(callbacks):
             prev = cur
             log.append((i, type(prev).__name__ if is_obj(g, prev) else type(prev).__name__, _shape(g, prev)))
+            if is_obj(g, prev):
+                log.append(('meta', i, repr(sorted(prev._metadata._fields.items()))))
             cur = cb(prev)
             if cur is not prev and is_obj(g, prev) and is_obj(g, cur) and not len(cur._metadata):
                 cur._metadata.update(prev._metadata)
